@@ -10,13 +10,13 @@ def BF (w w' : World) : Prop := w'.bodies = w.bodies ∧ w'.bodyDead = w.bodyDea
 theorem BF.refl (w : World) : BF w w := ⟨rfl, rfl⟩
 theorem BF.trans {a b c : World} (h1 : BF a b) (h2 : BF b c) : BF a c := ⟨h2.1.trans h1.1, h2.2.trans h1.2⟩
 
-theorem schedule_BF (cfg : Cfg) (w : World) (f : Nat) (v : Val) (e : Bool) (rg nb : Nat) (src : Src) :
-    BF w (schedule cfg w f v e rg nb src) := by
+theorem schedule_BF (cfg : Cfg) (w : World) (f : Nat) (v : Val) (e : Bool) (rg nb : Nat) (src : Src) (re : Nat) :
+    BF w (schedule cfg w f v e rg nb src re) := by
   unfold schedule
   by_cases hc : (cfg.canceledGuard && (w.fibers f).canceled) = true <;> simp [hc, BF]
 
-theorem schedule_BF' (cfg : Cfg) (w w1 : World) (h : BF w w1) (f : Nat) (v : Val) (e : Bool) (rg nb : Nat) (src : Src) :
-    BF w (schedule cfg w1 f v e rg nb src) := BF.trans h (schedule_BF cfg w1 f v e rg nb src)
+theorem schedule_BF' (cfg : Cfg) (w w1 : World) (h : BF w w1) (f : Nat) (v : Val) (e : Bool) (rg nb : Nat) (src : Src) (re : Nat) :
+    BF w (schedule cfg w1 f v e rg nb src re) := BF.trans h (schedule_BF cfg w1 f v e rg nb src re)
 
 theorem chanPush_BF (cfg : Cfg) (w : World) (f c : Nat) (x : Val) (ch : Bool) : BF w (chanPush cfg w f c x ch).1 := by
   unfold chanPush
@@ -47,7 +47,7 @@ theorem chanPop_BF (cfg : Cfg) (w : World) (f c : Nat) (ch : Bool) : BF w (chanP
 theorem closeOne_BF (cfg : Cfg) (c : Nat) (w : World) (e : Pending) : BF w (closeOne cfg c w e) := by
   unfold closeOne
   split
-  · exact schedule_BF _ _ _ _ _ _ _ _
+  · exact schedule_BF _ _ _ _ _ _ _ _ _
   · exact BF.refl _
 
 theorem closeFold_BF (cfg : Cfg) (c : Nat) (l : List Pending) (w : World) : BF w (l.foldl (closeOne cfg c) w) := by
@@ -58,9 +58,9 @@ theorem closeFold_BF (cfg : Cfg) (c : Nat) (l : List Pending) (w : World) : BF w
 theorem fireTimer_BF (cfg : Cfg) (w : World) (to : Timer) : BF w (fireTimer cfg w to) := by
   unfold fireTimer
   cases to.kind with
-  | deadline b => simp only; split; exact schedule_BF _ _ _ _ _ _ _ _; exact BF.refl _
-  | timeout => simp only; split; exact schedule_BF _ _ _ _ _ _ _ _; exact BF.refl _
-  | sleep => simp only; split; exact schedule_BF _ _ _ _ _ _ _ _; exact BF.refl _
+  | deadline b => simp only; split; exact schedule_BF _ _ _ _ _ _ _ _ _; exact BF.refl _
+  | timeout => simp only; split; exact schedule_BF _ _ _ _ _ _ _ _ _; exact BF.refl _
+  | sleep => simp only; split; exact schedule_BF _ _ _ _ _ _ _ _ _; exact BF.refl _
 
 theorem timerPhase_BF (cfg : Cfg) (fuel : Nat) (w : World) : BF w (timerPhase cfg w fuel) := by
   induction fuel generalizing w with
@@ -91,33 +91,32 @@ theorem runTask_BF (cfg : Cfg) (w : World) : BF w (runTask cfg w) := by
     split
     · exact ⟨rfl, rfl⟩
     · split
-      · have := asyncEnd_BF { w with queue := q, fibers := set w.fibers t.fiber { w.fibers t.fiber with canceled := false } } t.fiber
-        exact ⟨this.1, this.2⟩
+      · exact ⟨(asyncEnd_BF _ t.fiber).1, (asyncEnd_BF _ t.fiber).2⟩
       · exact ⟨rfl, rfl⟩
 
 /-- every step except `bodyStart` / `bodyDone` leaves the bodies alone -/
 theorem step_BF (cfg : Cfg) (w : World) (op : Op) (h1 : ∀ b, op ≠ .bodyStart b) (h2 : ∀ b, op ≠ .bodyDone b) : BF w (step cfg w op) := by
   cases op with
-  | spawn f => exact schedule_BF _ _ _ _ _ _ _ _
+  | spawn f => exact schedule_BF _ _ _ _ _ _ _ _ _
   | give f c x ch => simp only [step]; split; exact BF.refl _; exact chanPush_BF _ _ _ _ _ _
   | take f c ch =>
     simp only [step]
     split
-    · split; exact BF.refl _; exact schedule_BF _ _ _ _ _ _ _ _
+    · split; exact BF.refl _; exact schedule_BF _ _ _ _ _ _ _ _ _
     · have hp := chanPop_BF cfg w f c ch
       cases hr : chanPop cfg w f c ch with
       | mk w1 o =>
         rw [hr] at hp
         cases o with
         | none => exact hp
-        | some it => simp only; split; exact hp; exact BF.trans hp (schedule_BF _ _ _ _ _ _ _ _)
+        | some it => simp only; split; exact hp; exact BF.trans hp (schedule_BF _ _ _ _ _ _ _ _ _)
   | close c =>
     simp only [step, chanClose]
     split
     · exact BF.refl _
     · have h0 : BF w { w with chans := set w.chans c { (w.chans c) with closed := true, rp := [], wp := [] } } := ⟨rfl, rfl⟩
       exact BF.trans h0 (closeFold_BF _ _ _ _)
-  | cancel f v => exact schedule_BF _ _ _ _ _ _ _ _
+  | cancel f v => exact schedule_BF _ _ _ _ _ _ _ _ _
   | sleep f d => exact ⟨rfl, rfl⟩
   | timeout f d => exact ⟨rfl, rfl⟩
   | deadline f b d => exact ⟨rfl, rfl⟩
@@ -132,7 +131,7 @@ theorem step_BF (cfg : Cfg) (w : World) (op : Op) (h1 : ∀ b, op ≠ .bodyStart
     · split
       · exact BF.refl _
       · split
-        · exact BF.trans (schedule_BF _ _ _ _ _ _ _ _) (asyncEnd_BF _ _)
+        · exact BF.trans (schedule_BF _ _ _ _ _ _ _ _ _) (asyncEnd_BF _ _)
         · exact BF.refl _
   | procWait f k => exact ⟨rfl, rfl⟩
   | procExit k st =>
@@ -140,8 +139,22 @@ theorem step_BF (cfg : Cfg) (w : World) (op : Op) (h1 : ∀ b, op ≠ .bodyStart
     split
     · exact BF.refl _
     · split
-      · apply schedule_BF'; exact ⟨rfl, rfl⟩
+      · split
+        · split
+          · apply schedule_BF'; exact ⟨rfl, rfl⟩
+          · exact ⟨rfl, rfl⟩
+        · split
+          · apply schedule_BF'; exact ⟨rfl, rfl⟩
+          · exact ⟨rfl, rfl⟩
       · exact ⟨rfl, rfl⟩
+  | procFlag k x => exact ⟨rfl, rfl⟩
+  | childEnter f => exact ⟨rfl, rfl⟩
+  | childLeave f =>
+    simp only [step]
+    split
+    · have := asyncEnd_BF { w with fibers := set w.fibers f { w.fibers f with depth := (w.fibers f).depth - 1 } } f
+      exact ⟨this.1, this.2⟩
+    · exact ⟨rfl, rfl⟩
   | advance dt => exact ⟨rfl, rfl⟩
   | timers => exact timerPhase_BF _ _ _
   | run => exact runTask_BF _ _
